@@ -96,6 +96,9 @@ pub mod asg {
     #[verifier::external_body] pub struct TExpr { _p: u8 }
     #[verifier::external_body] pub struct Annotation { _p: u8 }
     impl Clone for Annotation { #[verifier::external_body] fn clone(&self) -> (r: Annotation) ensures r == *self { unimplemented!() } }
+    // asg.rs: #[derive(PartialEq)] (structural)
+    impl vstd::std_specs::cmp::PartialEqSpecImpl for Annotation { open spec fn obeys_eq_spec() -> bool { true } open spec fn eq_spec(&self, other: &Annotation) -> bool { *self == *other } }
+    impl PartialEq for Annotation { #[verifier::external_body] fn eq(&self, other: &Self) -> (r: bool) { unimplemented!() } }
 }
 #[verifier::external_body] pub struct PathBuf { _p: u8 }
 impl SemanticErrorList {
